@@ -99,6 +99,7 @@ def check(chk: Check) -> None:
     chk.functions.add(construct)
     probe(chk)
     chk.part("writer-prefix", lambda: writer_prefix(chk))
+    chk.part("history", lambda: history(chk))
     chk.rule("C08.TABLE.writer-mode", "RDFLibJellySerializer.serialize writes length-prefixed frames iff params.delimited, for every logical type it accepts; non-delimited output is a single frame", floor=20)
     from . import c06
 
@@ -229,3 +230,38 @@ def freeze_eq(a: Any, b: Any) -> bool:
 
 def _show(parts: list) -> str:
     return "[" + ", ".join(p.hex() if isinstance(p, bytes) else p[0] for p in parts) + "]"
+
+
+def history(chk: Check) -> None:
+    """The mode reported for a stream comes from that stream's own first bytes, whatever was parsed before it."""
+    prog = chk.program
+    rule = "C08.PATH.history-independent"
+    chk.rule(rule, "two streams with identical options rows, one delimited and one not, parsed one after the other in either order: each is reported (params.delimited) and read in its own mode", floor=4)
+    for order in ((True, False), (False, True), (True, False, True), (False, True, False)):
+        for seekable in (True, False):
+
+            def scenario(it: Interp) -> Any:
+                k = K.Kit(it)
+                w = K.Wire(it)
+                out = []
+                for delim in order:
+                    frames = [w.frame([w.options_row(1, 1)] + w.statement_rows(1, 1, "a"))]
+                    if delim:
+                        frames.append(w.frame(w.statement_rows(1, 1, "b")))
+                    inp = K.models.make_input(AIter(iter(frames), "frames"), b"\x20\x0a\x05" if delim else b"\x0a\x05\x0a", seekable=seekable, buffered=True)
+                    opts, fr = it.unpack_values(k.call(k.get(K.IO, "get_options_and_frames"), inp))
+                    out.append((delim, k.attr(opts, "params.delimited"), len(it.drain(fr)), len(frames)))
+                return out
+
+            inst = f"order={'/'.join('delimited' if d else 'non-delimited' for d in order)} seekable={seekable}"
+            for it, res in explore(prog, scenario, max_paths=8, generic_strings=True):
+                chk.paths += 1
+                if res[0] != "ok":
+                    chk.fail(rule, inst, "pyjelly.parse.ioutils.get_options_and_frames:history", f"raises {it.exc_class_name(res[1].exc)} at {res[1].site}")
+                    continue
+                bad = [(i, d, flag, n, want) for i, (d, flag, n, want) in enumerate(res[1]) if flag != d or n != want]
+                if bad:
+                    i, d, flag, n, want = bad[0]
+                    chk.fail(rule, inst, "pyjelly.parse.decode.options_from_frame:history", f"stream #{i + 1} ({'delimited' if d else 'non-delimited'}) is reported as delimited={flag} and yields {n} of {want} frames after the streams parsed before it")
+                else:
+                    chk.ok(rule, inst, {"streams": len(order)})
